@@ -182,7 +182,9 @@ func record(id, sub string, raw []byte, o *Outcome, out string, src string, ms i
 		}
 	}
 	// Keep a few actual cases as samples.
-	if len(raw) < 6000 {
+	if os.Getenv("VERIF_STATS_ALLCASES") != "" {
+		r.Case = raw
+	} else if len(raw) < 6000 {
 		if o.NonTrivial && samplesNT[key] < 3 {
 			samplesNT[key]++
 			r.Case = raw
